@@ -24,11 +24,32 @@ def parse_call(message: str):
         node = ast.parse(src.strip(), mode="eval").body
         if not isinstance(node, ast.Call):
             return None
-        args = [ast.literal_eval(a) for a in node.args]
-        kwargs = {k.arg: ast.literal_eval(k.value) for k in node.keywords}
-        return {"args": args, "kwargs": kwargs}
+        env = {}
+        args = [_ev(a, env) for a in node.args]
+        kwargs = {k.arg: _ev(k.value, env) for k in node.keywords}
+        from .core import to_json
+        return {"args": to_json(args), "kwargs": to_json(kwargs)}
     except Exception:
         return None
+
+
+def _ev(node, env):
+    """literal_eval extended with CrossHair's aliasing syntax  f(v1:=b'', v1, [v1])."""
+    if isinstance(node, ast.NamedExpr):
+        v = _ev(node.value, env)
+        env[node.target.id] = v
+        return v
+    if isinstance(node, ast.Name):
+        if node.id in env:
+            return env[node.id]
+        return {"True": True, "False": False, "None": None}[node.id]
+    if isinstance(node, ast.List):
+        return [_ev(e, env) for e in node.elts]
+    if isinstance(node, ast.Tuple):
+        return tuple(_ev(e, env) for e in node.elts)
+    if isinstance(node, ast.Dict):
+        return {_ev(k, env): _ev(v, env) for k, v in zip(node.keys, node.values)}
+    return ast.literal_eval(node)
 
 
 def main(argv):
